@@ -58,6 +58,7 @@ def check(ctx):
     _g = _gc.build(ctx, "R15.5")
     ctx.run_shared(_c15.r15_5, _g)
     ctx.run_shared(_c15.r15_6, _g)
+    ctx.run_shared(_c15.r15_10, _g)
     # mechanisms this property rests on (see shared.py): a change there is reported here as well
     from . import shared as _sh
 
